@@ -176,6 +176,10 @@ def _one_snapshot_in(ctx: Ctx, case: Dict[str, Any], suite: str, world):
                 import gc
                 gc.collect()
             return "raise", type(e).__name__
+        if isinstance(world.storage, sim.FsStore):
+            # a call that swallowed a read failure also leaves abandoned coroutines behind: same precaution
+            import gc
+            gc.collect()
         d = gen.deep_eq(expect_value, got)
         return ("ok-correct", None) if d is None else ("ok-wrong", d)
 
@@ -226,12 +230,25 @@ def _one_snapshot_in(ctx: Ctx, case: Dict[str, Any], suite: str, world):
 
                         def call():
                             return Snapshot(ROOT).read_object(key, memory_budget_bytes=budget)
+                    # a quarter of the calls are made from code running inside an asyncio event loop (asyncio.run(main()),
+                    # a notebook cell, an async service handler)
+                    in_loop = ctx.rng.random() < 0.25
+
+                    def call_maybe_in_loop():
+                        if not in_loop:
+                            return call()
+                        import asyncio as _aio
+
+                        async def _main():
+                            return call()
+                        return _aio.run(_main())
                     with sim.knobs(nobatch=nobatch, budget=case["knobs"].get("budget"), conc=case["knobs"].get("conc")):
-                        outcome, detail = classify(lambda: world.run1(call), expect_value)
+                        outcome, detail = classify(lambda: world.run1(call_maybe_in_loop), expect_value)
+                    ctx.count("call.in_event_loop" if in_loop else "call.plain")
                     exp_raise = _expected_raise(reqs, loc, kind, n, sizes)
                     inp = {"state": case["state"], "knobs": case["knobs"], "real_fs": bool(case.get("real_fs")), "object": loc,
                            "size": sizes[loc], "damage": kind, "n": n,
-                           "call": mode, "read_batching": not nobatch, "path": key, "budget": budget}
+                           "call": mode, "read_batching": not nobatch, "path": key, "budget": budget, "in_loop": in_loop}
                     if outcome == "ok-wrong":
                         ctx.fail("silent-wrong-data", "call returned normally with contents different from the saved ones", inp, detail, suite=suite)
                     elif outcome == "ok-correct" and exp_raise:
